@@ -90,6 +90,12 @@ Definition first_pos_at (ps : list position) (i : nat) (p : position) : Prop :=
   nth_error ps i = Some p /\
   forall j q, (j < i)%nat -> nth_error ps j = Some q -> triple q <> triple p.
 
+Lemma first_pos_at_reading ps i p :
+  first_pos_at ps i p <->
+  nth_error ps i = Some p /\
+  forall j q, (j < i)%nat -> nth_error ps j = Some q -> triple q <> triple p.
+Proof. reflexivity. Qed.
+
 Section Dedup.
   Variable logs : list transcript.
   Variable b : batch.
